@@ -9,7 +9,7 @@ from . import common as C, pool as P, toolpool as TP, simrun as R
 
 
 class Ctx:
-    def __init__(self, chk, tier, single=False):
+    def __init__(self, chk, tier, single=False, rundir=None):
         self.chk, self.tier = chk, tier
         self.seed = C.verif_seed()
         self.libs = P.ensure()
@@ -17,7 +17,12 @@ class Ctx:
         variants = sorted(set(v for v, t in chk.TOOLS))
         for v in variants:
             self.build_s += C.build(v, ['toolsim_' + t for vv, t in chk.TOOLS if vv == v])
-        self.rundir = C.run_dir(chk.PROP.lower() + ('-replay' if single else ''))
+        # A check whose outcomes depend on the very paths of a run (REPLAY_SAME_RUNDIR: C14, where paths leak into string
+        # hashes, heap contents and through them into completion orders) replays in the directory of the batch: the batch
+        # lends its own (it is idle while a violation is handled), a stand-alone replay claims the same slot by the same tag.
+        same = getattr(chk, 'REPLAY_SAME_RUNDIR', False)
+        self.own_rundir = rundir is None
+        self.rundir = rundir or C.run_dir(chk.PROP.lower() + ('-replay' if single and not same else ''))
         self.pools = {}
         for v, t in chk.TOOLS:
             prefix = getattr(chk, 'SERVER_PREFIX', None) or getattr(chk, 'SERVER_PREFIX_BY_VARIANT', {}).get(v)
@@ -33,7 +38,8 @@ class Ctx:
     def close(self):
         for p in self.pools.values():
             p.close()
-        shutil.rmtree(self.rundir, ignore_errors=True)
+        if self.own_rundir:
+            shutil.rmtree(self.rundir, ignore_errors=True)
 
 
 class Result:
@@ -177,14 +183,14 @@ def handle_violation(chk, ctx, items, plan, r, key, occurrences):
               'details': r3.verdict[1] if r3.verdict else r.verdict[1], 'info': r3.info, 'shrink_runs': tries,
               'occurrences_in_this_run': occurrences, 'VERIF_SEED': ctx.seed, 'original_params': plan['params']}
     path = C.write_replay(chk.PROP, ''.join(c if c.isalnum() or c in '-_.' else '_' for c in key)[:120], replay)
-    if not replay_file(chk, path, quiet=True):
+    if not replay_file(chk, path, quiet=True, rundir=ctx.rundir if getattr(chk, 'REPLAY_SAME_RUNDIR', False) else None):
         raise C.InfraError('NONDETERMINISTIC-HARNESS: replay file %s did not reproduce in a fresh server' % path)
     return path, {'key': key, 'class': klass, 'details': replay['details'], 'params': params, 'occurrences': occurrences, 'shrink_runs': tries}
 
 
-def replay_file(chk, path, quiet=False):
+def replay_file(chk, path, quiet=False, rundir=None):
     j = json.load(open(path))
-    ctx = Ctx(chk, 'quick', single=True)
+    ctx = Ctx(chk, 'quick', single=True, rundir=rundir)
     try:
         items = chk.make_items(ctx, only=j['item'])
         r = chk.execute(ctx, items[j['item']], j['params'])
